@@ -41,6 +41,7 @@ package redis
 
 //@ func (rl *RedisLock) AcquireCtx
 //@   property C19
+//@   overflow checked
 //@   results ok, err
 //@   call ScriptRunCtx#0: assert arg_script == lockScript && len(arg_keys) == 1 && arg_keys[0] == rl.key
 //@   call ScriptRunCtx#0: assert len(raw3) == 2 && raw3[0] == rl.id && raw3[1] == strconv.Itoa(int(rl.seconds)*1000+500)
